@@ -763,6 +763,251 @@ pub unsafe extern "C" fn madvise(
     }) as libc::c_int
 }
 
+// --- synchronous socket / pipe calls (fallback paths of a10) ----------------
+//
+// `getsockname`, `getpeername`, `getsockopt`, `setsockopt` and `pipe2` are
+// interposed like `close`/`mmap` above. Unless the simulated kernel is active
+// AND a component switched the trap on (`sync_trap(true)`; only `encode` does),
+// they forward to the real function (`dlsym(RTLD_NEXT, ..)`, raw system call if
+// that cannot be resolved) and record nothing. With the trap on, a call is
+// recorded (`SyncCall`) and answered from the script (`SyncScript`) without
+// reaching the real kernel.
+
+/// One trapped synchronous call.
+#[derive(Clone, Debug, PartialEq)]
+pub struct SyncCall {
+    /// "getsockname" | "getpeername" | "getsockopt" | "setsockopt" | "pipe2"
+    pub call: &'static str,
+    /// descriptor argument (-1 for `pipe2`)
+    pub fd: i32,
+    pub level: i32,
+    pub optname: i32,
+    /// `*address_len` / `*optlen` on entry, `option_len` of `setsockopt`
+    pub len_in: u32,
+    /// value bytes passed to `setsockopt` (at most 64 are read)
+    pub val: Vec<u8>,
+    /// `pipe2` flags
+    pub flags: i32,
+    /// what was returned: 0 or -errno
+    pub ret: i32,
+}
+
+/// Outcome of the next trapped calls.
+#[derive(Clone, Debug, Default)]
+pub struct SyncScript {
+    /// fail with this errno (nothing is written)
+    pub errno: Option<i32>,
+    /// bytes written to the address / option buffer (truncated to the length
+    /// the caller passed in, as the kernel does)
+    pub data: Vec<u8>,
+    /// value stored into `*address_len` / `*optlen`
+    pub len_out: u32,
+    /// descriptors `pipe2` returns
+    pub fds: [i32; 2],
+}
+
+static SYNC_TRAP: AtomicBool = AtomicBool::new(false);
+static SYNC_LOG: Mutex<(Vec<SyncCall>, Option<SyncScript>)> = Mutex::new((Vec::new(), None));
+
+fn with_sync<R>(f: impl FnOnce(&mut (Vec<SyncCall>, Option<SyncScript>)) -> R) -> R {
+    let mut g = match SYNC_LOG.lock() {
+        Ok(g) => g,
+        Err(e) => e.into_inner(),
+    };
+    f(&mut g)
+}
+
+/// Switch the trap on/off. Off (the default) = pure forwarding.
+pub fn sync_trap(on: bool) {
+    SYNC_TRAP.store(on, Ordering::SeqCst);
+    if !on {
+        with_sync(|g| {
+            g.0.clear();
+            g.1 = None;
+        });
+    }
+}
+
+/// Outcome of the trapped calls from now on (`None` = succeed writing nothing).
+pub fn sync_script(s: Option<SyncScript>) {
+    with_sync(|g| g.1 = s);
+}
+
+/// The calls trapped since the last drain.
+pub fn sync_drain() -> Vec<SyncCall> {
+    with_sync(|g| std::mem::take(&mut g.0))
+}
+
+fn sync_trapped() -> bool {
+    SYNC_TRAP.load(Ordering::SeqCst) && ACTIVE.load(Ordering::SeqCst)
+}
+
+/// Address of the next definition of `name` (the C library's), resolved once.
+fn next_symbol(cache: &std::sync::atomic::AtomicUsize, name: &std::ffi::CStr) -> usize {
+    let p = cache.load(Ordering::Relaxed);
+    if p != 0 {
+        return p;
+    }
+    let p = unsafe { libc::dlsym(libc::RTLD_NEXT, name.as_ptr()) } as usize;
+    cache.store(p, Ordering::Relaxed);
+    p
+}
+
+/// Record a trapped call and produce its return value from the script.
+fn sync_answer(mut c: SyncCall, write: impl FnOnce(&SyncScript)) -> libc::c_int {
+    let script = with_sync(|g| g.1.clone()).unwrap_or_default();
+    let ret = match script.errno {
+        Some(e) => {
+            c.ret = -e;
+            errno_ret(e) as libc::c_int
+        }
+        None => {
+            write(&script);
+            c.ret = 0;
+            0
+        }
+    };
+    with_sync(|g| g.0.push(c));
+    ret
+}
+
+fn sync_call(call: &'static str, fd: i32) -> SyncCall {
+    SyncCall { call, fd, level: 0, optname: 0, len_in: 0, val: Vec::new(), flags: 0, ret: 0 }
+}
+
+unsafe fn sync_name(
+    call: &'static str,
+    fd: libc::c_int,
+    addr: *mut libc::sockaddr,
+    len: *mut libc::socklen_t,
+) -> libc::c_int {
+    let mut c = sync_call(call, fd);
+    c.len_in = if len.is_null() { 0 } else { unsafe { *len } };
+    let cap = c.len_in as usize;
+    sync_answer(c, |s| unsafe {
+        if !addr.is_null() {
+            let n = s.data.len().min(cap);
+            std::ptr::copy_nonoverlapping(s.data.as_ptr(), addr.cast::<u8>(), n);
+        }
+        if !len.is_null() {
+            *len = s.len_out;
+        }
+    })
+}
+
+#[unsafe(no_mangle)]
+pub unsafe extern "C" fn getsockname(
+    fd: libc::c_int,
+    addr: *mut libc::sockaddr,
+    len: *mut libc::socklen_t,
+) -> libc::c_int {
+    if sync_trapped() {
+        return unsafe { sync_name("getsockname", fd, addr, len) };
+    }
+    static NEXT: std::sync::atomic::AtomicUsize = std::sync::atomic::AtomicUsize::new(0);
+    type F = unsafe extern "C" fn(libc::c_int, *mut libc::sockaddr, *mut libc::socklen_t) -> libc::c_int;
+    match next_symbol(&NEXT, c"getsockname") {
+        0 => raw_to_libc(unsafe { raw_syscall(libc::SYS_getsockname, fd as i64, addr as i64, len as i64, 0, 0, 0) }) as libc::c_int,
+        p => unsafe { std::mem::transmute::<usize, F>(p)(fd, addr, len) },
+    }
+}
+
+#[unsafe(no_mangle)]
+pub unsafe extern "C" fn getpeername(
+    fd: libc::c_int,
+    addr: *mut libc::sockaddr,
+    len: *mut libc::socklen_t,
+) -> libc::c_int {
+    if sync_trapped() {
+        return unsafe { sync_name("getpeername", fd, addr, len) };
+    }
+    static NEXT: std::sync::atomic::AtomicUsize = std::sync::atomic::AtomicUsize::new(0);
+    type F = unsafe extern "C" fn(libc::c_int, *mut libc::sockaddr, *mut libc::socklen_t) -> libc::c_int;
+    match next_symbol(&NEXT, c"getpeername") {
+        0 => raw_to_libc(unsafe { raw_syscall(libc::SYS_getpeername, fd as i64, addr as i64, len as i64, 0, 0, 0) }) as libc::c_int,
+        p => unsafe { std::mem::transmute::<usize, F>(p)(fd, addr, len) },
+    }
+}
+
+#[unsafe(no_mangle)]
+pub unsafe extern "C" fn getsockopt(
+    fd: libc::c_int,
+    level: libc::c_int,
+    optname: libc::c_int,
+    optval: *mut libc::c_void,
+    optlen: *mut libc::socklen_t,
+) -> libc::c_int {
+    if sync_trapped() {
+        let mut c = sync_call("getsockopt", fd);
+        c.level = level;
+        c.optname = optname;
+        c.len_in = if optlen.is_null() { 0 } else { unsafe { *optlen } };
+        let cap = c.len_in as usize;
+        return sync_answer(c, |s| unsafe {
+            if !optval.is_null() {
+                let n = s.data.len().min(cap);
+                std::ptr::copy_nonoverlapping(s.data.as_ptr(), optval.cast::<u8>(), n);
+            }
+            if !optlen.is_null() {
+                *optlen = s.len_out;
+            }
+        });
+    }
+    static NEXT: std::sync::atomic::AtomicUsize = std::sync::atomic::AtomicUsize::new(0);
+    type F = unsafe extern "C" fn(libc::c_int, libc::c_int, libc::c_int, *mut libc::c_void, *mut libc::socklen_t) -> libc::c_int;
+    match next_symbol(&NEXT, c"getsockopt") {
+        0 => raw_to_libc(unsafe { raw_syscall(libc::SYS_getsockopt, fd as i64, level as i64, optname as i64, optval as i64, optlen as i64, 0) }) as libc::c_int,
+        p => unsafe { std::mem::transmute::<usize, F>(p)(fd, level, optname, optval, optlen) },
+    }
+}
+
+#[unsafe(no_mangle)]
+pub unsafe extern "C" fn setsockopt(
+    fd: libc::c_int,
+    level: libc::c_int,
+    optname: libc::c_int,
+    optval: *const libc::c_void,
+    optlen: libc::socklen_t,
+) -> libc::c_int {
+    if sync_trapped() {
+        let mut c = sync_call("setsockopt", fd);
+        c.level = level;
+        c.optname = optname;
+        c.len_in = optlen;
+        if !optval.is_null() {
+            let n = (optlen as usize).min(64);
+            c.val = unsafe { std::slice::from_raw_parts(optval.cast::<u8>(), n) }.to_vec();
+        }
+        return sync_answer(c, |_| {});
+    }
+    static NEXT: std::sync::atomic::AtomicUsize = std::sync::atomic::AtomicUsize::new(0);
+    type F = unsafe extern "C" fn(libc::c_int, libc::c_int, libc::c_int, *const libc::c_void, libc::socklen_t) -> libc::c_int;
+    match next_symbol(&NEXT, c"setsockopt") {
+        0 => raw_to_libc(unsafe { raw_syscall(libc::SYS_setsockopt, fd as i64, level as i64, optname as i64, optval as i64, optlen as i64, 0) }) as libc::c_int,
+        p => unsafe { std::mem::transmute::<usize, F>(p)(fd, level, optname, optval, optlen) },
+    }
+}
+
+#[unsafe(no_mangle)]
+pub unsafe extern "C" fn pipe2(fds: *mut libc::c_int, flags: libc::c_int) -> libc::c_int {
+    if sync_trapped() {
+        let mut c = sync_call("pipe2", -1);
+        c.flags = flags;
+        return sync_answer(c, |s| unsafe {
+            if !fds.is_null() {
+                *fds = s.fds[0];
+                *fds.add(1) = s.fds[1];
+            }
+        });
+    }
+    static NEXT: std::sync::atomic::AtomicUsize = std::sync::atomic::AtomicUsize::new(0);
+    type F = unsafe extern "C" fn(*mut libc::c_int, libc::c_int) -> libc::c_int;
+    match next_symbol(&NEXT, c"pipe2") {
+        0 => raw_to_libc(unsafe { raw_syscall(libc::SYS_pipe2, fds as i64, flags as i64, 0, 0, 0, 0) }) as libc::c_int,
+        p => unsafe { std::mem::transmute::<usize, F>(p)(fds, flags) },
+    }
+}
+
 // --- setup ----------------------------------------------------------------
 
 fn raw_mmap_fd(fd: i32, off: i64, len: usize) -> *mut u8 {
